@@ -315,6 +315,8 @@ func observe(keys [][]byte, sibs []string, qs []wq, root []byte, rsel int, kl in
 	return o
 }
 
+var maxObs = 40
+
 func flipBit(b []byte, i int) []byte {
 	c := append([]byte{}, b...)
 	if len(c) == 0 {
@@ -354,12 +356,12 @@ func runProof(r *hx.Rng, kl int, gen string, batches [][]wop, keys [][]byte, tam
 		return rec
 	}
 	rec.Sibs, rec.Qs = toSibs(proof), toQs(proof)
-	rec.Obs = append(rec.Obs, observe(keys, rec.Sibs, rec.Qs, root, 0, kl, true, "honest"))
+	rec.Obs = append(rec.Obs, observe(keys, rec.Sibs, rec.Qs, root, 0, kl, len(keys) > 0, "honest"))
 	if !tamper || len(keys) == 0 {
 		return rec
 	}
 	add := func(ks [][]byte, sibs []string, qs []wq, rsel int, what string) {
-		if len(rec.Obs) < 40 {
+		if len(rec.Obs) < maxObs {
 			rec.Obs = append(rec.Obs, observe(ks, sibs, qs, root, rsel, kl, false, what))
 		}
 	}
@@ -558,6 +560,7 @@ func main() {
 	nroot := flag.Int("nroot", 120, "histories")
 	nproof := flag.Int("nproof", 120, "proof cases")
 	nev := flag.Int("nev", 20, "event root cases")
+	flag.IntVar(&maxObs, "maxobs", 40, "max verification observations per proof case")
 	flag.Parse()
 	r := hx.NewRng(hx.SeedFromEnv())
 	o := hx.NewOut(*out)
